@@ -8,6 +8,7 @@ import args_gen as G
 ID = 'C02'
 MODEL_ID = 'ARGS'
 HARNESS = A.HARNESS
+INTERNAL_COMPARABLE = False   # behind '##' the harness prints exception class / texts, the driver a note: never equal
 RULE = ('a case = random well-formed configuration (2-6 arguments: flags, int, string, optional<int>, vector<int>, '
         'vector<string> with mandatory flag, checks, formats, cardinalities, requires/excludes, list options, handler '
         'constraints) + a valid abstract line + ONE rule-breaking mutation (see args_gen.MUTATIONS) + a random legal '
@@ -148,6 +149,14 @@ def gen_cases(tier, rng):
     # the key of a sub-group argument is taken by a plain argument of the same handler: the definition is refused
     for plain, sub in (('o,output', 'o'), ('output', 'output'), ('o', 'o,output'), ('o,output', 'x,output')):
         cases.append('H:f=0 arg:%s:b0:init=0 S:%s:f=0 arg:q:b1:init=0 %s exp:reject mut:duplicate' % (plain, sub, A.argv_tok(['-o'])))
+    # the inversion character in front of an argument that does not allow inversion (none of these does): refused;
+    # in front of nothing: no effect.  "(" and ")" without bracket handlers are unknown arguments
+    for w, exp in ((['!', '-f'], 'reject'), (['-n', '3', '!', '-f'], 'reject'), (['!', '-n', '3'], 'reject'), (['!', '--number=3'], 'reject'),
+                   (['-f', '!'], 'b0=1;i0=0;vi0=[]'), (['!'], 'b0=0;i0=0;vi0=[]'), (['-l', '1', '!', '2'], 'reject'), (['!', '!', '-f'], 'reject'),
+                   (['(', '-f', ')'], 'reject'), (['-f', ')'], 'reject'), (['-l', '1', '(', '2'], 'reject'), (['-fn', '3', '!'], 'b0=1;i0=3;vi0=[]')):
+        # (the lines without an inverted argument carry no expectation: model and implementation have to agree)
+        cases.append('H:f=0 arg:f:b0:init=0 arg:n,number:i0: arg:l:vi0:multi %s%s'
+                     % (A.argv_tok(w), ' exp:reject mut:inversion' if exp == 'reject' else ''))
     # nothing on the command line: the end-of-line checks still run
     cases.append('H:f=0 arg:m:i0:man arg:x:b0:init=0 argv:- exp:reject mut:drop-mandatory')
     cases.append('H:f=0 arg:l:b0:init=0 arg:m:b1:init=0 con:one_of:l;m argv:- exp:reject mut:break-handler-constraint')
